@@ -425,6 +425,10 @@ func genH265Rt(x *Ctx) {
 	for _, cf := range cfgs {
 		for mtu := 4; mtu <= 20; mtu++ {
 			for n := 2; n <= 2*mtu+3; n++ {
+				if cf[0] && n > mtu-3 {
+					// AddDONL and a fragmented unit: the region of the known finding, see c14.rt.donlfu
+					continue
+				}
 				for _, sc := range []int{0, 3, 4} {
 					cf, mtu, n, sc := cf, mtu, n, sc
 					x.Case(func(c *Case) {
@@ -440,6 +444,9 @@ func genH265Rt(x *Ctx) {
 			for a := 3; a <= mtu+1; a++ {
 				for b := 3; b <= mtu+1; b += 1 + (a+b)%2 {
 					cf, mtu, a, b := cf, mtu, a, b
+					if cf[0] && (a > mtu-3 || b > mtu-3) {
+						continue
+					}
 					x.Case(func(c *Case) {
 						f := []h265Framed{{c.R.Pick(3, 4), h265GenUnit(c.R, a, true)}, {c.R.Pick(3, 4), h265GenUnit(c.R, b, true)}}
 						if c.R.Bool() {
@@ -473,6 +480,10 @@ func genH265Rt(x *Ctx) {
 					if sz > 3000 {
 						sz = r.Range(3, 3000)
 					}
+					if cf[0] && sz > mtu-3 && mtu >= 6 {
+						// keep well-formed AddDONL streams out of the known-finding region
+						sz = r.Range(3, mtu-3)
+					}
 					if !wf && r.Chance(1, 3) {
 						sz = r.Range(0, 3)
 					}
@@ -497,6 +508,32 @@ func genH265Rt(x *Ctx) {
 				c.Tag("not-wf")
 			}
 			h265RtCase(c, cf[0], cf[1], mtu, frames)
+		})
+	}
+}
+
+// c14.rt.donlfu: AddDONL and at least one fragmented unit — the region of the open known finding
+// c14_donl_fu (DONL in every FU).  Kept small and apart from c14.rt: inside the region the model
+// describes the defective behaviour, and every case is reported as an instance of the finding.
+func genH265RtDonlFu(x *Ctx) {
+	for _, skip := range []bool{false, true} {
+		for mtu := 6; mtu <= 12; mtu++ {
+			for _, n := range []int{mtu - 2, mtu - 1, mtu, mtu + 1, 2*mtu - 7, 2 * mtu} {
+				skip, mtu, n := skip, mtu, n
+				x.Case(func(c *Case) {
+					f := []h265Framed{{c.R.Pick(0, 3, 4), h265GenUnit(c.R, n, true)}}
+					h265RtCase(c, true, skip, mtu, [][]h265Framed{f})
+				})
+			}
+		}
+	}
+	for i, n := 0, x.N(12, 40); i < n; i++ {
+		x.Case(func(c *Case) {
+			r := c.R
+			mtu := r.Pick(r.Range(6, 64), 1200)
+			f := []h265Framed{{4, h265GenUnit(r, r.Range(3, mtu-3), true)}, {3, h265GenUnit(r, mtu+r.Range(-2, 40), true)},
+				{4, h265GenUnit(r, r.Range(3, mtu-3), true)}}
+			h265RtCase(c, true, r.Bool(), mtu, [][]h265Framed{f, f[:2]})
 		})
 	}
 }
@@ -990,13 +1027,98 @@ func genH265C09(x *Ctx) {
 	}
 }
 
+// c09.h265.sub: the four exported sub-parsers called directly (fresh receiver per payload).
+type h265Sub interface {
+	Unmarshal(payload []byte) ([]byte, error)
+}
+
+func h265SubCase(c *Case, which int, donl bool, payload []byte) {
+	c.I.Nat(which).Bool(donl).OBytes(payload)
+	var tmp Toks
+	var err error
+	if try(func() {
+		var p h265Sub
+		switch which {
+		case 0:
+			q := &codecs.H265SingleNALUnitPacket{}
+			q.WithDONL(donl)
+			p = q
+		case 1:
+			q := &codecs.H265AggregationPacket{}
+			q.WithDONL(donl)
+			p = q
+		case 2:
+			q := &codecs.H265FragmentationUnitPacket{}
+			q.WithDONL(donl)
+			p = q
+		default:
+			p = &codecs.H265PACIPacket{}
+		}
+		_, err = p.Unmarshal(payload)
+		if err == nil {
+			h265WriteView(&tmp, p, payload)
+		}
+	}) {
+		c.O.Panic()
+		return
+	}
+	if err != nil {
+		c.O.Err("other")
+		return
+	}
+	c.O.Ok().Tok(tmp.String())
+}
+
+func genH265Sub(x *Ctx) {
+	for which := 0; which < 4; which++ {
+		for _, donl := range []bool{false, true} {
+			which, donl := which, donl
+			x.Case(func(c *Case) { h265SubCase(c, which, donl, nil) })
+			x.Case(func(c *Case) { h265SubCase(c, which, donl, []byte{}) })
+			for a := 0; a < 256; a++ {
+				a := a
+				x.Case(func(c *Case) { h265SubCase(c, which, donl, []byte{byte(a), 1, byte(a * 7), 0, 1, 0x80}[:1+a%6]) })
+			}
+		}
+	}
+	for i, n := 0, x.N(6000, 400000); i < n; i++ {
+		x.Case(func(c *Case) {
+			r := c.R
+			which, donl := r.Intn(4), r.Bool()
+			var b []byte
+			if r.Chance(1, 3) {
+				b = h265Garbage(r)
+				if len(b) > 0 && r.Chance(2, 3) {
+					b[0] = byte([]int{r.Intn(48), 48, 49, 50}[which]<<1) | b[0]&1
+				}
+			} else {
+				kind := which
+				if r.Chance(1, 5) {
+					kind = r.Intn(4)
+				}
+				d := h265GenDesc(r, kind, r.Chance(4, 5) == donl)
+				if len(d.Payload) > 40 {
+					d.Payload = d.Payload[:40]
+				}
+				b = d.encode()
+				if r.Chance(1, 2) {
+					b = h265Mutate(r, b)
+				}
+			}
+			h265SubCase(c, which, donl, b)
+		})
+	}
+}
+
 func init() {
+	register("c09.h265.sub", "C09", genH265Sub)
 	register("c14.acc.hdr", "C14", genH265AccHdr)
 	register("c14.acc.fu", "C14", genH265AccFu)
 	register("c14.acc.paci", "C14", genH265AccPaci)
 	register("c14.acc.tsci", "C14", genH265AccTsci)
 	register("c14.dec", "C14", genH265Dec)
 	register("c14.rt", "C14", genH265Rt)
+	register("c14.rt.donlfu", "C14", genH265RtDonlFu)
 	register("c08.h265", "C08", genH265C08)
 	register("c09.h265", "C09", genH265C09)
 }
